@@ -1,7 +1,8 @@
 // Package c17: the HAR log (har.Logger) over arbitrary histories of RecordRequest,
-// RecordResponse, Export, ExportAndReset and Reset — sequential (step-by-step and exhaustive
-// `seq` words, both compared with the Lean model) and concurrent (oracle only: linearisability
-// against the property's own reading of the log, see conc.go).
+// RecordResponse, Export, ExportAndReset, Reset and SetOption, with messages that can or cannot
+// be logged (msg.go) — sequential (step-by-step and exhaustive `seq` words, both compared with
+// the Lean model) and concurrent (linearisability against the property's own reading of the log,
+// the linearisation found is then replayed by the Lean model; see conc.go).
 package c17
 
 import (
@@ -21,9 +22,12 @@ func init() { core.Register(P{}) }
 
 func (P) ID() string { return "C17" }
 func (P) Rule() string {
-	return "case = (a) one history of 5-400 ops (req/res over IDs a-e, export, export-and-reset, reset; per-case op weights) run step by step " +
-		"on one har.Logger, or (b) a block of `seq` words: EVERY word over the 9-letter alphabet {req a,b,c; res a,b,c; export; export-and-reset; reset} " +
-		"up to length 5 (quick) / 7 (thorough), each run on a fresh Logger, or (c) a concurrent run (8 goroutines) checked for linearisability; " +
+	return "case = (a) one history of 5-400 ops (req/res over IDs a-h/k0-k39 with plain or faulty messages: framed / unframed bodies, content types, body read errors, undecodable bodies; " +
+		"SetOption calls of the six logging options; export, export-and-reset, reset; per-case op weights) run step by step on one har.Logger, or " +
+		"(b) a block of `seq` words: EVERY word over the 9-letter alphabet {req a,b,c; res a,b,c; export; export-and-reset; reset} up to length 5 (quick) / 7 (thorough), every word with a failing call " +
+		"over the 15-letter alphabet (+ failing response a,b,c; failing request a,b,c) up to length 4 / 5 and, up to renaming of the IDs, of length 5 / 6, each run on a fresh Logger, or " +
+		"(c) a concurrent run (2-8 goroutines; random programs over own/shared IDs with slow and failing bodies, or duplicate storms: every goroutine calls about the same ID, held in its body read " +
+		"until all are in flight) checked for linearisability, the linearisation replayed by the model; " +
 		"distinct by hash of the op list; non-trivial when some export-and-reset returned at least one completed entry while keeping at least one pending entry"
 }
 
